@@ -345,4 +345,94 @@ func runC13(c *runCtx) {
 			}
 		}
 	}
+	// long runs of failures on ONE parser (a reused parser.Parser, and one recovery-mode parse of a long script) do not
+	// change what later inputs answer: after 60 failures inside any construct — the right or left operand of every binary
+	// operator three levels deep, function arguments, CASE arms, lists, casts, sub-queries, CTE bodies … — a deep
+	// well-formed statement is still accepted and a rejected one gives the error it gives on a fresh parser
+	{
+		type fam struct{ name, bad string }
+		var fams []fam
+		for _, op := range []string{"OR", "AND", "=", "<>", "<", "+", "-", "*", "/", "%", "||", "LIKE", "NOT LIKE", "IS NOT DISTINCT FROM"} {
+			fams = append(fams, fam{"right-operand:" + op, "SELECT a FROM t WHERE a = 1 " + op + " (b = 2 " + op + " (c = 3 " + op + " ))"})
+			fams = append(fams, fam{"left-operand:" + op, "SELECT a FROM t WHERE ((( " + op + " 3) " + op + " 2) " + op + " 1)"})
+		}
+		fams = append(fams, fam{"function-arguments", "SELECT f(1, g(2, h(3, )))"}, fam{"case-arms", "SELECT CASE WHEN a THEN CASE WHEN b THEN CASE WHEN c THEN END END END"},
+			fam{"in-list-subquery", "SELECT a FROM t WHERE a IN (1, (SELECT b FROM u WHERE b IN (2, )))"}, fam{"cast", "SELECT CAST(CAST(CAST( AS INT) AS INT) AS INT)"},
+			fam{"not", "SELECT a FROM t WHERE NOT (NOT (NOT ))"}, fam{"between", "SELECT a FROM t WHERE a BETWEEN 1 AND (b BETWEEN 2 AND (c BETWEEN 3 AND ))"}, fam{"unary-minus", "SELECT - (- (- ))"},
+			fam{"derived-tables", "SELECT a FROM (SELECT b FROM (SELECT c FROM (SELECT )) y) x"}, fam{"cte-bodies", "WITH c AS (WITH d AS (SELECT a FROM t WHERE (1 OR )) SELECT 1) SELECT 2"},
+			fam{"array", "SELECT ARRAY[1, ARRAY[2, ARRAY[3, ]]]"}, fam{"join-on", "SELECT a FROM t JOIN u ON (x = 1 OR (y = 2 OR (z = 3 OR )))"}, fam{"order-by", "SELECT a FROM t ORDER BY (a OR (b OR (c OR )))"},
+			fam{"insert-values", "INSERT INTO t VALUES (1 OR (2 OR (3 OR )))"}, fam{"update-set", "UPDATE t SET a = (1 OR (2 OR (3 OR )))"}, fam{"exists", "SELECT a FROM t WHERE EXISTS (SELECT 1 FROM u WHERE EXISTS (SELECT 1 FROM v WHERE EXISTS (SELECT )))"},
+			fam{"window", "SELECT SUM(a) OVER (PARTITION BY (b OR (c OR (d OR )))) FROM t"}, fam{"having", "SELECT a FROM t GROUP BY a HAVING (a OR (b OR (c OR )))"})
+		probes := []string{"SELECT " + strings.Repeat("(", 70) + "1" + strings.Repeat(")", 70), "SELECT a FROM t WHERE a = 1 OR b = 2", "SELECT a FROM t WHERE (a = ", "SELECT f(1, ", "SELECT a FROM t WHERE a IN (SELECT b FROM u WHERE c = (SELECT 1))"}
+		fresh := make([]string, len(probes))
+		for i, pr := range probes {
+			_, err := parser.NewParser().Parse(convOf(pr))
+			fresh[i] = errKeyC13(err)
+		}
+		const runs = 60
+		for _, f := range fams {
+			badConv := convOf(f.bad)
+			if badConv == nil {
+				res.stat("failure-run-lex-error:" + f.name)
+				continue
+			}
+			if _, err := parser.NewParser().Parse(badConv); err == nil {
+				res.stat("failure-run-accepted:" + f.name)
+				continue
+			}
+			res.count("failure-run|"+f.name, true)
+			p := parser.NewParser()
+			for i := 0; i < runs; i++ {
+				_, _ = p.Parse(badConv)
+			}
+			// the Lean depth model (depth_restored_after_any_history): the real counter is back at 0
+			res.CorrCases++
+			if dpt := p.VerifDepth(); dpt != 0 {
+				res.corrFail("depth-model", "the recursion-depth counter is not back at 0 after a run of failed parses, as the model with deferred decrements says",
+					map[string]any{"failing_statement": f.bad, "construct": f.name, "times": runs}, map[string]any{"depth": dpt})
+			}
+			for i, pr := range probes {
+				_, err := p.Parse(convOf(pr))
+				if got := errKeyC13(err); got != fresh[i] {
+					res.fail("error-after-failure-run:reused-parser", "after a run of failed parses on one parser a later input answers differently from a fresh parser",
+						map[string]any{"failing_statement": f.bad, "construct": f.name, "times": runs, "then": truncate(pr, 120)}, map[string]any{"got": got, "fresh": fresh[i]})
+					break
+				}
+			}
+			// one recovery-mode parse of the whole run followed by the probes: the probes' own errors are those of a fresh parse
+			script := strings.Repeat(f.bad+";\n", runs)
+			for _, pr := range probes {
+				script += pr + ";\n"
+			}
+			_, errs := gosqlx.ParseWithRecovery(script)
+			var gotProbe []string
+			for _, e := range errs {
+				var se *goerrors.Error
+				if errors.As(e, &se) && se.Location.Line > runs {
+					gotProbe = append(gotProbe, fmt.Sprintf("%d:%s", se.Location.Line-runs, se.Code))
+				}
+			}
+			var wantProbe []string
+			for i := range probes {
+				if fresh[i] != "ok" {
+					wantProbe = append(wantProbe, fmt.Sprintf("%d:%s", i+1, strings.SplitN(fresh[i], "|", 2)[0]))
+				}
+			}
+			if strings.Join(gotProbe, " ") != strings.Join(wantProbe, " ") {
+				res.fail("error-after-failure-run:recovery", "in one recovery-mode parse, the statements after a run of malformed ones do not give the errors (line of the statement: code) they give alone",
+					map[string]any{"failing_statement": f.bad, "construct": f.name, "times": runs}, map[string]any{"got": gotProbe, "want": wantProbe})
+			}
+		}
+	}
+}
+
+func errKeyC13(err error) string {
+	if err == nil {
+		return "ok"
+	}
+	var se *goerrors.Error
+	if errors.As(err, &se) {
+		return fmt.Sprintf("%s|%s", se.Code, se.Message)
+	}
+	return "unstructured|" + err.Error()
 }
